@@ -481,33 +481,42 @@ def outputsFor (k : KState) (layer code : Nat) : Option (List Nat) :=
 def repeatCandidate (k : KState) (cur : List KeyCode) (outs : List Nat) : Option Nat :=
   outs.reverse.find? fun kc => cur.contains kc || k.unshiftedKeys.contains kc || k.unmoddedKeys.contains kc
 
+
+/-- the layer scan of `handle_repeat_actual`: the first layer of the order that has outputs for the
+key and one of them active decides -/
+def scanLayers (k : KState) (cur : List KeyCode) (code : Nat) : List Nat → Option Nat
+  | [] => none
+  | l :: rest =>
+    match outputsFor k l code with
+    | some outs => (match repeatCandidate k cur outs with | some kc => some kc | none => scanLayers k cur code rest)
+    | none => scanLayers k cur code rest
+
+def isActive (k : KState) (cur : List KeyCode) (kc : Nat) : Bool :=
+  cur.contains kc || k.unshiftedKeys.contains kc || k.unmoddedKeys.contains kc
+
+/-- which key code (if any) a repeat event for physical key `code` is forwarded as -/
+def repeatTarget (k : KState) (cur : List KeyCode) (order : List Nat) (code : Nat) : Option Nat :=
+  match scanLayers k cur code order with
+  | some kc => some kc
+  | none =>
+    match (match outputsFor k k.layout.defaultLayer code with
+           | some outs => repeatCandidate k cur outs
+           | none => none) with
+    | some kc => some kc
+    | none => if isActive k cur code then some code else none
+
 /-- `Kanata::handle_repeat` -/
 def handleRepeat (k : KState) (code : Nat) : Except Crash KState :=
-  let cur0 := k.curKeys ++ k.layout.keycodes
-  match k.overrides.overrideKeys cur0 k.overrideStates with
+  match k.overrides.overrideKeys (k.curKeys ++ k.layout.keycodes) k.overrideStates with
   | .error c => .error (.override c)
   | .ok (cur, ost) =>
     let k := { k with overrideStates := ost }
     match k.layout.transOrder with
     | .error e => .error (.layout e)
     | .ok order =>
-      let rec scan : List Nat → Option Nat
-        | [] => none
-        | l :: rest =>
-          match outputsFor k l code with
-          | some outs => (match repeatCandidate k cur outs with | some kc => some kc | none => scan rest)
-          | none => scan rest
-      let k' : KState :=
-        match scan order with
+      let k' : KState := match repeatTarget k cur order code with
         | some kc => writeRepeat k kc
-        | none =>
-          match (match outputsFor k k.layout.defaultLayer code with
-                 | some outs => repeatCandidate k cur outs
-                 | none => none) with
-          | some kc => writeRepeat k kc
-          | none =>
-            if cur.contains code || k.unshiftedKeys.contains code || k.unmoddedKeys.contains code
-            then writeRepeat k code else k
+        | none => k
       .ok { k' with curKeys := [] }
 
 inductive Input
